@@ -13,7 +13,10 @@
                       assemble_request_head / assemble_response_head (net/http/http1/assemble.py)
 
    Cases (constant, produced by props/C06.py) are records
-     [dir, from, to, cls, body, mode, valid, sent]   with sent the semantic tuple of the concrete message (Mon_HttpXlate).
+     [dir, from, to, cls, body, mode, win, valid, sent]   with sent the semantic tuple of the concrete message
+   (Mon_HttpXlate).  win = "tight": the HTTP/2 next hop announced a 3-byte stream window beforehand (for requests: during
+   an earlier exchange on the same connections) and opens it in steps of 1-3 bytes, so BufferedH2Connection parks and
+   splits the body chunks; what finally arrives must be the same, so the predictions do not depend on win.
 
    Named deviations of the code (each makes the monitor reject the case; see findings_proposed/C06.md):
      TrailersToH1Crash     Http1Client.send / Http1Server.send raise AssertionError on Request/ResponseTrailers
@@ -106,6 +109,7 @@ Translate(c) ==
   /\ Live /\ done' = TRUE
   /\ LET o == Outcome(c) IN
      Emit(<<[k |-> "xlate", dir |-> c.dir, from |-> c.from, to |-> c.to, cls |-> c.cls, mode |-> c.mode, body |-> c.body,
+             win |-> c.win,
              valid |-> c.valid, bodydef |-> c.bodydef, sent |-> c.sent, crashed |-> o.crashed, n |-> o.n, extra |-> o.extra, mal |-> o.mal,
              complete |-> o.complete, own |-> o.own, recv |-> o.recv],
             [k |-> "end"]>>)
